@@ -66,6 +66,21 @@ pub fn scenarios(tier: Tier) -> Vec<Scenario> {
         sc.max_readers = k;
         out.push(sc);
     }
+    // values that make a leaf end exactly at the end of its page run (page header 40 + element 32 + key 1
+    // + 1975 = 2048): a write that spills a single byte further lands in the page behind it
+    {
+        let mut su = setup();
+        su.insert(2, Action::Tx { ops: vec![OpSpec::bucket("create", &[], "z"), OpSpec::put(&["z"], "o", "t*1975"), OpSpec::put(&["b"], "k9", "t*883")], commit: true });
+        let mut alpha: Vec<Action> = vec![Action::OpenReader, Action::CloseReader(0), Action::CloseReader(1)];
+        for ops in [vec![OpSpec::put(&["z"], "o", "u*1975")], vec![OpSpec::put(&["z"], "o", "t*1974")], vec![OpSpec::put(&["z"], "p", "t*1975")], m[0].clone(), m[1].clone()] {
+            alpha.push(Action::Tx { ops, commit: true });
+        }
+        let or = Oracles { readers_frozen: true, dump_after: true, ..Oracles::NONE };
+        let mut sc = Scenario::new("readers-exact-size-values-k2", Cfg { num_pages: 2000, ..Cfg::default() }, su, Box::new(alpha), if q { 6 } else { 8 }, or);
+        sc.poison_unmap = true;
+        sc.max_readers = 2;
+        out.push(sc);
+    }
     out
 }
 
